@@ -3995,7 +3995,7 @@ class Network(Cached):
             "closeness": closeness * (N-1),
             "harmonic_closeness": harmonic_closeness / (N-1),
             "exponential_closeness": exponential_closeness / (N-1),
-            "average_path_length": average_path_length / N*(N-1),
+            "average_path_length": average_path_length / (N*(N-1)),
             "global_efficiency": harmonic_closeness.mean() / (N-1),
             "nsi_closeness": nsi_closeness * W,
             "nsi_harmonic_closeness": nsi_harmonic_closeness / W,
